@@ -84,7 +84,7 @@ func normaliserSites(fn *ssa.Function) []normSite {
 		return nil
 	}
 	for _, lp := range loops {
-		for b := range lp.Blocks {
+		for _, b := range blocksInOrder(lp) {
 			for _, in := range b.Instrs {
 				add, ok := in.(*ssa.BinOp)
 				if !ok || add.Op != token.ADD {
